@@ -220,6 +220,22 @@ func c10CheckDec(c c10DecCase) h.Result {
 		r.Fail("CompressedEdwardsY.UnmarshalBinary:receiver-not-identity-on-error", "in=%x receiver=%x", in, cu[:])
 	}
 
+	// --- the same call on a receiver that ALREADY HOLDS these 32 bytes (put there without validation by SetBytes, the
+	// constructor or an array literal): the decision is a function of the string, not of the receiver's history
+	r.Eval(1)
+	var cs curve.CompressedEdwardsY
+	_, _ = cs.SetBytes(in)
+	err = cs.UnmarshalBinary(in)
+	if (err == nil) != di.OK {
+		r.Fail("CompressedEdwardsY.UnmarshalBinary(receiver-holds-the-input):wrong-decision", "in=%x err=%v reference-on-curve=%v", in, err, di.OK)
+	} else if !di.OK && !bytes.Equal(cs[:], c10IdentityBytes) {
+		r.Fail("CompressedEdwardsY.UnmarshalBinary(receiver-holds-the-input):receiver-not-identity-on-error", "in=%x receiver=%x", in, cs[:])
+	} else if di.OK {
+		if d2 := ref.Decode(cs[:]); !d2.OK || !d2.P.Equal(di.P) {
+			r.Fail("CompressedEdwardsY.UnmarshalBinary(receiver-holds-the-input):wrong-point", "in=%x stored=%x", in, cs[:])
+		}
+	}
+
 	if !bytes.Equal(in, c.In) {
 		r.Fail("edwards-decoders:input-modified", "in=%x", []byte(c.In))
 	}
